@@ -34,9 +34,41 @@ def write_inputs(sb, case, cfg_order=None, excludes_in_toml=None, tag=""):
     return path
 
 
-def run(module, args, cwd, hashseed=None, timeout=120):
+_SITE = '''
+import os
+_real = os.scandir
+class _Rev:
+    def __init__(self, it):
+        self._it = it
+        self._l = sorted(list(it), key=lambda e: e.name, reverse=(os.environ.get("CBI_SCANDIR") == "reverse"))
+    def __iter__(self):
+        return iter(self._l)
+    def __next__(self):
+        raise StopIteration
+    def __enter__(self):
+        return self
+    def __exit__(self, *a):
+        self._it.close()
+    def close(self):
+        self._it.close()
+def scandir(path="."):
+    return _Rev(_real(path))
+if os.environ.get("CBI_SCANDIR"):
+    os.scandir = scandir
+'''
+
+
+def run(module, args, cwd, hashseed=None, timeout=120, scandir=None):
     env = dict(os.environ)
     env["PYTHONPATH"] = REPO
+    if scandir:
+        # interpose on os.scandir (directory enumeration order) through a sitecustomize module
+        site = os.path.join(cwd, ".cbi_site")
+        os.makedirs(site, exist_ok=True)
+        with open(os.path.join(site, "sitecustomize.py"), "w") as fh:
+            fh.write(_SITE)
+        env["PYTHONPATH"] = site + os.pathsep + REPO
+        env["CBI_SCANDIR"] = scandir
     env["PYTHONWARNINGS"] = "ignore"
     if hashseed is not None:
         env["PYTHONHASHSEED"] = str(hashseed)
